@@ -272,9 +272,13 @@ def run(ctx):
         else:
             res_mp, got_mp, ref_mp, name = worst[0], worst[2], worst[3], f"basis product {tuple(int(v) for v in worst[1])}"
         # mechanism: computed from the INPUT classes
-        if any(inf["ap_not_multiples"] and inf["default_shifts"] for inf in infos):
+        # normalised size of the discrepancy separates the two known mechanisms: the misapplied closed form is an O(1)
+        # error, the period-rounding of iterated rules is a 1e-8..1e-4 relative error
+        rel = float(res_mp) / max(1.0, float(sumc))
+        rounded = any(o > 1 and any(abs(float(v) - round(float(v), 5)) > 1e-12 for v in f) for o, f in zip(orders, freq_list))
+        if any(inf["ap_not_multiples"] and inf["default_shifts"] for inf in infos) and not (rounded and rel < 1e-4):
             mech = "equidistant-formula-on-non-multiple-frequencies"
-        elif any(o > 1 and any(abs(float(v) - round(float(v), 5)) > 1e-12 for v in f) for o, f in zip(orders, freq_list)):
+        elif rounded and rel < 1e-4:
             # an iterated rule on frequencies that need more than 5 decimals (frequencies_to_period rounds to 5 decimals)
             mech = "order>1:period-from-rounded-frequencies"
         elif any(o > 1 for o in orders):
